@@ -234,8 +234,10 @@ class DataCollection:
                 if self.write_to_disk.wait(0.5):
                     for ds in self.datasets:
                         ds.write()
-                    self.write_to_disk.clear()
+                    # Signal completion before accepting the next trigger: a trigger arriving
+                    # in between would otherwise be followed by a stale "finished".
                     self.write_finished.set()
+                    self.write_to_disk.clear()
         except KeyboardInterrupt:
             pass
         finally:
@@ -246,5 +248,5 @@ class DataCollection:
         if self.write_to_disk.wait(0.5):
             for ds in self.datasets:
                 ds.write()
-            self.write_to_disk.clear()
             self.write_finished.set()
+            self.write_to_disk.clear()
